@@ -298,3 +298,12 @@ def t12(ctx):
 
 
 RULES.append(t12)
+
+
+@rule("T13", cfgs=["explanations", "checks_explanations"], doc="merging a class that has a symmetry away does not abort half-way (explanations builds): the proof paired with each transported generator is a chain whose steps meet — symmetry(find-proof) ; generator's proof ; find-proof (C07.K16); a panic there leaves the union-find redirected and the symmetry lost, and every old handle of the class unusable")
+def t13(ctx):
+    from . import c07
+    c07.k16(ctx)
+
+
+RULES.append(t13)
